@@ -261,10 +261,27 @@ def run_case(case, cl=None):
         name = op["op"]
         where = f"op #{i} {op!r}"
         if name == "set_bounds":
+            before_b = get_bounds(g, op["name"])
             try:
                 g.set_bounds(op["name"], op["lo"], op["hi"])
+                rejected = False
             except (ValueError, TypeError):
                 cl.add("set_bounds_rejected")
+                rejected = True
+            # the limits in force are what the caller configured: a rejected
+            # set_bounds() leaves the earlier limits of that property in force
+            after_b = get_bounds(g, op["name"])
+            if rejected and after_b != before_b:
+                raise Violation(f"{where}: the rejected set_bounds() changed the limits of "
+                                f"{op['name']!r} from {before_b!r} to {after_b!r}")
+            if not rejected:
+                want = ((tuple(float(c) for c in op["lo"]), tuple(float(c) for c in op["hi"]))
+                        if op["name"] == "axes" else (op["lo"], op["hi"]))
+                if after_b is None or tuple(after_b[0] if op["name"] == "axes" else [after_b[0]]) != \
+                        tuple(want[0] if op["name"] == "axes" else [want[0]]) or \
+                        tuple(after_b[1] if op["name"] == "axes" else [after_b[1]]) != \
+                        tuple(want[1] if op["name"] == "axes" else [want[1]]):
+                    raise Violation(f"{where}: limits of {op['name']!r} read back as {after_b!r}")
             continue
         if name == "box_excluding_position":
             from vf.common import box_excluding_position
